@@ -107,7 +107,7 @@ def C09_2(ctx, facts):
                   "accept step error derives from %s" % sorted({norm(r.site.name) for r in rr if r.kind == "call"}), po.where(b))
     ctx.floor("Serving::poll_once|err-sites", n, 3, "error returns in poll_once")
     for key in (("server::Serving", "Future", "poll"), ("server::GracefulShutdown", "Future", "poll")):
-        f = facts.unit(facts.method(*key))
+        f = facts.unit(facts.method(*key), expand=True)
         ctx.touched(f)
         es = err_sources(f)
         ctx.floor("%s|err-sites" % key[0].split("::")[-1], len(es), 1, "error returns")
@@ -127,7 +127,7 @@ def C09_3(ctx, facts):
             if it["name"] == "Output":
                 out = it.get("ty")
     ctx.check(out == "()", "ConnectionDriver|Output-unit", "<ConnectionDriver as Future>::Output = (): a connection's error cannot travel to the server", "ConnectionDriver::Output is %s" % out)
-    f = facts.unit(facts.method("server::conn::drivers::ConnectionDriver", "Future", "poll"))
+    f = facts.unit(facts.method("server::conn::drivers::ConnectionDriver", "Future", "poll"), expand=True)
     ctx.touched(f)
     readys = [b for (b, i, s) in f.aggregates("Poll", "Ready")]
     polls = [c for c in f.calls() if norm(c.decl or c.name).endswith("::poll")]
